@@ -166,7 +166,7 @@ def run(ctx):
         p = c.twin.result if c.meta["paired"] else None
         before = bad
         if r["status"] != "RAN":
-            if p is not None and p["status"] != "RAN" and p.get("err") == r.get("err") and p["status"] == r["status"]:
+            if p is not None and p["status"] == r["status"] and p.get("unbound", p.get("err")) == r.get("unbound", r.get("err")):
                 stats["plain_fails_too"] += 1          # not the display's doing (C04/C06 report these)
                 continue
             bad += 1
@@ -191,9 +191,19 @@ def run(ctx):
             ctx.violation({"kind": "spacetime-changes-result"}, "adding a spacetime changed the computed tensors: %s %s" % (r["out"][:200], r["inp"]), c.replay())
             failed_items.add(c.meta["item"])
             continue
-        m = re.match(r'^(\d+)/(\d+),([TF]),([TF])$', r["extra"][0])
+        m = re.match(r'^(\d+)/(\d+),([TF]),([TF]),(\d+),(\d+)$', r["extra"][0])
         acts, upds, arity, distinct = int(m.group(1)), int(m.group(2)), m.group(3), m.group(4)
+        shown, ncanvas = int(m.group(5)), int(m.group(6))
         nact += acts
+        nst = len(c.meta["spacetime"])
+        if nst < len(c.spec.outs):
+            # a cascade in which only some Einsums are displayed: one canvas per displayed Einsum, one activity per update executed under it
+            if ncanvas != nst:
+                bad += 1
+                ctx.violation({"kind": "canvas-count"}, "%d canvases created for %d Einsums with a spacetime" % (ncanvas, nst), c.replay())
+                failed_items.add(c.meta["item"])
+                continue
+            upds = shown
         if acts != upds:
             bad += 1
             ctx.violation({"kind": "activity-count"}, "%d activities reported for %d executed updates" % (acts, upds), c.replay())
